@@ -264,10 +264,37 @@ def rule_nm1(ctx: Ctx) -> RuleResult:
         if moment_fn is not None:
             moment_fns.add((moment_fn[2], moment_fn[1]))
 
+        # which parameter of the helper is the sample, the centre and the order: by what its body does with them
+        # (sum((x_i - centre) ** order) / len(sample)); the call sites are read through these positions
+        def roles(mfn):
+            mm2, f2 = mfn[2], mfn[1]
+            names = [a.arg for a in f2.args.args]
+            order = centre = sample = None
+            for n_ in ast.walk(f2):
+                if isinstance(n_, ast.BinOp) and isinstance(n_.op, ast.Pow) and isinstance(n_.right, ast.Name) and n_.right.id in names:
+                    order = n_.right.id
+                    if isinstance(n_.left, ast.BinOp) and isinstance(n_.left.op, ast.Sub) and isinstance(n_.left.right, ast.Name) and n_.left.right.id in names:
+                        centre = n_.left.right.id
+                if isinstance(n_, ast.Call) and isinstance(n_.func, ast.Name) and n_.func.id == "len" and n_.args and isinstance(n_.args[0], ast.Name) \
+                        and n_.args[0].id in names:
+                    sample = n_.args[0].id
+            if None in (order, centre, sample) or len({order, centre, sample}) != 3:
+                return None
+            return names.index(sample), names.index(centre), names.index(order)
+        pos_ = roles(moment_fn) if moment_fn is not None else None
+        if moment_fn is not None and pos_ is None:
+            raise AnalysisError("formal.variance: cannot tell the sample / centre / order parameters of %s" % moment_fn[1].name)
+
         def is_moment(t, c, n):
-            return t[0] == "call" and t[1] == moment_fn and len(t[2]) == 3 and t[2][0] == MP and t[2][2] == ("const", n) and (c is None or t[2][1] == c)
+            if not (t[0] == "call" and t[1] == moment_fn and len(t[2]) == 3 and all(a[0] != "kw" for a in t[2])):
+                return False
+            ix, ic, io_ = pos_
+            return t[2][ix] == MP and t[2][io_] == ("const", n) and (c is None or t[2][ic] == c)
+
+        def centre_of(t):
+            return t[2][pos_[1]]
         mean_t = ("call", vv[1], (MP, ("const", 0), ("const", 1))) if vv is not None and vv[0] == "call" else None
-        good = vv is not None and is_moment(vv, None, 2) and is_moment(vv[2][1], ("const", 0), 1)
+        good = vv is not None and is_moment(vv, None, 2) and is_moment(centre_of(vv), ("const", 0), 1)
         raw = vv is not None and any(is_moment(x, ("const", 0), 2) for x in subterms(vv))
         if raw and not good:
             r.ob(False, fail(rel + "::variance._variance{raw-moment}", m, mp,
@@ -283,7 +310,11 @@ def rule_nm1(ctx: Ctx) -> RuleResult:
     mm_, mf = next(iter(moment_fns))
     r.instances += 1
     okm = False
-    X, C, N = ("arg", mm_.scopes[mf].params[0]), ("arg", mm_.scopes[mf].params[1]), ("arg", mm_.scopes[mf].params[2])
+    rl = roles(("func", mf, mm_))
+    if rl is None:
+        raise AnalysisError("formal.variance: cannot tell the sample / centre / order parameters of %s" % mf.name)
+    prm = mm_.scopes[mf].params
+    X, C, N = ("arg", prm[rl[0]]), ("arg", prm[rl[1]]), ("arg", prm[rl[2]])
     for p in ctx.fn_paths(mm_, mf, max_iter=1):
         r.paths += 1
         v = strip_uid(p.value) if p.value is not None else None
